@@ -24,7 +24,8 @@ def load_mutants():
     return m.MUTANTS
 
 
-def make_tree(mid, edits, src="/repo"):
+def make_tree(mid, edits, src=None):
+    src = src or os.environ.get("VERIF_SELFTEST_SRC", "/repo")
     d = os.path.join(SCRATCH_ROOT, mid)
     shutil.rmtree(d, ignore_errors=True)
     os.makedirs(d)
@@ -83,6 +84,36 @@ def run_one(m, jobs):
         shutil.rmtree(alt, ignore_errors=True)
     out["wall_s"] = round(time.time() - t0, 1)
     return out
+
+
+def run_for_prop(prop, parallel=4):
+    """Thorough tier: the mutants that name `prop`, run against that property's check only.
+    Returns a summary dict for the evidence file."""
+    muts = []
+    for m in load_mutants():
+        if prop in m["props"]:
+            m = dict(m)
+            m["props"] = [prop]
+            muts.append(m)
+    if not muts:
+        return {"mutants": 0}
+    os.makedirs(SCRATCH_ROOT, exist_ok=True)
+    try:
+        jobs = max(2, C.NPROC // parallel)
+        import concurrent.futures as cf
+        with cf.ThreadPoolExecutor(max_workers=parallel) as ex:
+            res = list(ex.map(lambda m: run_one(m, jobs), muts))
+    finally:
+        shutil.rmtree(SCRATCH_ROOT, ignore_errors=True)
+    return {
+        "mutants": len(res),
+        "breaking_detected": sum(1 for r in res if r["kind"] == "breaking" and r["ok"]),
+        "breaking_total": sum(1 for r in res if r["kind"] == "breaking"),
+        "neutral_silent": sum(1 for r in res if r["kind"] != "breaking" and r["ok"]),
+        "neutral_total": sum(1 for r in res if r["kind"] != "breaking"),
+        "unexpected": [{"id": r["id"], "why": r["why"]} for r in res if not r["ok"]],
+        "ids": [r["id"] for r in res],
+    }
 
 
 def run(filter_=None, parallel=4):
